@@ -57,6 +57,37 @@ def r_inf(A, ctx, scope, rule="R-INF"):
                     "Anderson-extrapolated point with infeasible entries has a finite "
                     "objective, passes `p_obj_acc < p_obj` and is returned when the budget "
                     "ends right after it", loc=loc(f, f.node))
+    # region check on the lifted value: +inf exactly outside the feasible set
+    from .penalgebra import PenaltyModel, evaluate, HYPER, variants
+    from ..algebra import Unsupported
+    for cls in A.prog.penalties:
+        kind = _constraint_kind(A, cls)
+        if kind is None or cls.find_method("prox_1d") is None:
+            continue
+        for var in variants(A.prog, cls):
+            if kind == "positive" and not var.get("positive"):
+                continue
+            pm = PenaltyModel(A, cls, var)
+            val = pm.value()
+            if val is None:
+                ctx.ob(rule, f"{cls.fq}::value-regions::{pm.tag}", None, detail=f"value not lifted: {pm.err}")
+                continue
+            upper = kind == "box" and ("sym", "alpha") in val.all_atoms()
+            pts = [(-1.0, True), (0.5, False)] + ([(HYPER["alpha"] + 1.0, True)] if upper else [(5.0, False)])
+            for wv, infeasible in pts:
+                n += 1
+                try:
+                    v = evaluate(val, {"w": wv, "g": 0.0})
+                except Unsupported as e:
+                    ctx.ob(rule, f"{cls.fq}::value-regions::{pm.tag}::w={wv}", None, detail=str(e))
+                    continue
+                isinf = v >= 1e20
+                ctx.ob(rule, f"{cls.fq}::value-regions::{pm.tag}::w={wv}", isinf == infeasible,
+                       what=f"{pm.tag}.value() is {'finite' if not isinf else 'infinite'} at an "
+                            f"{'in' if infeasible else ''}feasible point (every coefficient = {wv}): "
+                            + ("infeasible extrapolated points pass the objective comparison"
+                               if infeasible else "feasible points are rejected"),
+                       loc=pm.loc("value"))
     ctx.floor(rule, n, scope.get("floor", 8))
 
 
